@@ -23,7 +23,7 @@
 
 #define NROUT 9
 static char const *const RN[NROUT] = {"crc8", "crc16m", "crc16l", "crc32m", "crc32l", "crc64m", "crc64l", "hash_bkdr_", "hash_sdbm_"};
-static uint64_t vf_ncases(int tier) { (void)tier; return NROUT; }
+static uint64_t vf_ncases(int tier) { return NROUT + (tier ? 4 : 1); } /* + the 32/64-bit CRCs on 3 * 2^32 + 5 bytes (quick: one of the four, chosen by the seed) */
 
 static a_u8 t8[256];
 static a_u16 t16[256];
@@ -48,13 +48,18 @@ static uint64_t run(int rt, unsigned char const *p, size_t n, uint64_t v)
 
 static void vf_case(uint64_t c, vf_rng *r)
 {
-    int const rt = (int)(c % NROUT);
-    size_t const N = ((size_t)1 << 32) + 37, k = ((size_t)1 << 31) + 11;
-    static size_t const marks[] = {0, 1, 36, 4095, 4096, ((size_t)1 << 31) + 10, ((size_t)1 << 31) + 11, ((size_t)1 << 32) - 1, (size_t)1 << 32, ((size_t)1 << 32) + 1, ((size_t)1 << 32) + 36};
+    /* cases NROUT..: a message of 3 * 2^32 + 5 bytes in three pieces, each longer than 2^32 is avoided (cuts at 2^32 - 9 and 2^33 + 7 leave 2^32 - 9, 2^32 + 16, 2^32 - 2): a routine that
+       splits its input into k parts and combines the partial results with a length-dependent factor only misbehaves once a PART exceeds some width (seeded change C17-N: a three-way
+       split whose x^(8n) exponentiation runs over 32 exponent bits in the 32-bit routines: wrong from 3 * 2^32 bytes on, exact at 2^32 + 37) */
+    int const big = c >= NROUT;
+    int const rt = big ? 3 + (int)((c - NROUT + (vf.tier ? 0 : vf.seed)) % 4) : (int)(c % NROUT);
+    size_t const N = big ? 3 * ((size_t)1 << 32) + 5 : ((size_t)1 << 32) + 37, k = big ? ((size_t)1 << 32) - 9 : ((size_t)1 << 31) + 11, k2 = big ? ((size_t)1 << 33) + 7 : N;
+    static size_t const marks[] = {0, 1, 36, 4095, 4096, ((size_t)1 << 31) + 10, ((size_t)1 << 31) + 11, ((size_t)1 << 32) - 1, (size_t)1 << 32, ((size_t)1 << 32) + 1, ((size_t)1 << 32) + 36,
+                                   ((size_t)1 << 33) - 1, ((size_t)1 << 33) + 6, ((size_t)1 << 33) + 7, 3 * ((size_t)1 << 32) - 1, 3 * ((size_t)1 << 32), 3 * ((size_t)1 << 32) + 4};
     unsigned char *msg = (unsigned char *)mmap(NULL, N, PROT_READ | PROT_WRITE, MAP_PRIVATE | MAP_ANONYMOUS | MAP_NORESERVE, -1, 0);
     uint64_t init = vf_u64(r), whole, part, low;
     if (msg == MAP_FAILED) { VF_COUNT("giant-mapping-refused"); return; }
-    for (unsigned i = 0; i < sizeof marks / sizeof marks[0]; ++i) { msg[marks[i]] = (unsigned char)(1 + vf_below(r, 255)); }
+    for (unsigned i = 0; i < sizeof marks / sizeof marks[0]; ++i) { if (marks[i] < N) { msg[marks[i]] = (unsigned char)(1 + vf_below(r, 255)); } }
     switch (rt)
     {
     case 0: a_crc8m_init(t8, 0x07); break;
@@ -66,7 +71,7 @@ static void vf_case(uint64_t c, vf_rng *r)
     case 6: a_crc64l_init(t64, 0x42F0E1EBA9EA3693ULL); break;
     default: break;
     }
-    vf_log("a_%s on a message of 2^32+37 bytes (zero except %zu marked bytes), initial value 0x%" PRIx64 ": at once vs two pieces cut at 2^31+11", RN[rt], sizeof marks / sizeof marks[0], init);
+    vf_log("a_%s on a message of %s bytes (zero except marked bytes), initial value 0x%" PRIx64 ": at once vs pieces cut at %s", RN[rt], big ? "3*2^32+5" : "2^32+37", init, big ? "2^32-9 and 2^33+7" : "2^31+11");
     /* the two computations run side by side (a forked child evaluates the one-call form): one pass of wall time instead of two */
     {
         int fd[2];
@@ -82,13 +87,15 @@ static void vf_case(uint64_t c, vf_rng *r)
             _exit(o == (ssize_t)sizeof w ? 0 : 3);
         }
         close(fd[1]);
-        part = run(rt, msg + k, N - k, run(rt, msg, k, init));
+        part = run(rt, msg, k, init);
+        part = run(rt, msg + k, k2 - k, part);
+        if (k2 < N) { part = run(rt, msg + k2, N - k2, part); }
         if (read(fd[0], &whole, sizeof whole) != (ssize_t)sizeof whole) { fprintf(stderr, "h_crc_giant: child did not deliver\n"); exit(2); }
         close(fd[0]);
         waitpid(pid, NULL, 0);
     }
     ++vf.evals;
-    vf_count_dyn("giant-message-at-once-vs-pieces", 1);
+    vf_count_dyn(big ? "giant-message-3x2^32-at-once-vs-pieces" : "giant-message-at-once-vs-pieces", 1);
     {
         char nm[64];
         snprintf(nm, sizeof nm, "giant-%s", RN[rt]);
@@ -98,11 +105,11 @@ static void vf_case(uint64_t c, vf_rng *r)
     {
         char key[96];
         low = run(rt, msg, N & 0xFFFFFFFFu, init);
-        snprintf(key, sizeof key, "%s/message-longer-than-2^32/at-once-ne-pieces", RN[rt]);
-        vf_viol(key, "a_%s over 2^32+37 bytes at once = 0x%" PRIx64 ", in two pieces (2^31+11, rest) = 0x%" PRIx64 "%s", RN[rt], whole, part,
+        snprintf(key, sizeof key, big ? "%s/message-of-3x2^32-bytes/at-once-ne-pieces" : "%s/message-longer-than-2^32/at-once-ne-pieces", RN[rt]);
+        vf_viol(key, "a_%s over %s bytes at once = 0x%" PRIx64 ", in pieces = 0x%" PRIx64 "%s", RN[rt], big ? "3*2^32+5" : "2^32+37", whole, part,
                 whole == low ? "; the one-call value equals the value of the first 37 bytes alone: the length is truncated to 32 bits" : "");
     }
-    vf_distinct(vf_hash64(0x1717, (uint64_t)rt));
-    if (vf_want_sample()) { vf_sample("a_%s: 2^32+37-byte message, at once == two pieces (0x%" PRIx64 ")", RN[rt], whole); }
+    vf_distinct(vf_hash64(0x1717, (uint64_t)rt + (big ? 16 : 0)));
+    if (!big && vf_want_sample()) { vf_sample("a_%s: 2^32+37-byte message, at once == two pieces (0x%" PRIx64 ")", RN[rt], whole); }
     munmap(msg, N);
 }
